@@ -274,9 +274,10 @@ def Obj.setUnits (o : Obj) (u : Option U) : Except Rej Obj :=
   else .ok { o with units := u }
 
 /-- qube.py:1796-1808 `without_units(recursive=True)`: `clone(recursive)` then `_units_ = None`.
-    Stored values are kept; the derivatives keep their values and (contrary to the docstring) also their
-    own units. -/
-def Obj.withoutUnits (o : Obj) : Obj := { o with units := none }
+    Stored values are kept; the (cloned) derivatives keep their values and lose their units as well
+    (repaired: the pinned code left the derivatives' units in place, contrary to its docstring). -/
+def Obj.withoutUnits (o : Obj) : Obj :=
+  { o with units := none, derivs := o.derivs.map fun kd => (kd.1, { kd.2 with units := none }) }
 
 /-! ### the cached derivative-free view and unit changes (qube.py:1354-1378, 1773-1793)
 
@@ -308,6 +309,47 @@ def CObj.setUnits (c : CObj) (u : Option U) : Except Rej CObj :=
   match c.obj.setUnits u with
   | .error e => .error e
   | .ok o => .ok ⟨o, none⟩
+
+/-- qube.py `clone()` (and `copy()`): a new object whose cache never contains the 'wod' entry -/
+def CObj.clone (c : CObj) : CObj := ⟨c.obj, none⟩
+
+/-- qube.py:1796-1808 `without_units`: `self` if there is nothing to strip, else a clone without units -/
+def CObj.withoutUnits (c : CObj) : CObj :=
+  if c.obj.units.isNone && c.obj.derivs.isEmpty then c else ⟨c.obj.withoutUnits, none⟩
+
+/-- qube.py:1811-1842 `into_units`: `self` on the easy exits, else a clone with new values (empty cache) -/
+def CObj.intoUnits (c : CObj) : CObj :=
+  match c.obj.units with
+  | none => c
+  | some u => if u.factorInv.isOne then c else ⟨c.obj.intoUnits, none⟩
+
+/-- qube.py:1845-1871 `from_units` -/
+def CObj.fromUnits (c : CObj) : CObj :=
+  match c.obj.units with
+  | none => c
+  | some u => if u.factor.isOne then c else ⟨c.obj.fromUnits, none⟩
+
+/-- one step of a history of an object -/
+inductive HOp where
+  | touch                          -- anything that materialises the cached view
+  | setUnits (u : Option U)
+  | without | into | «from» | clone
+  deriving DecidableEq, Repr, Inhabited
+
+def CObj.step (c : CObj) : HOp → Except Rej CObj
+  | .touch => .ok c.touch
+  | .setUnits u => c.setUnits u
+  | .without => .ok c.withoutUnits
+  | .into => .ok c.intoUnits
+  | .«from» => .ok c.fromUnits
+  | .clone => .ok c.clone
+
+/-- a whole history; the object each step returns is the one the next step works on -/
+def CObj.run : List HOp → CObj → Except Rej CObj
+  | [], c => .ok c
+  | h :: hs, c => match c.step h with
+    | .error e => .error e
+    | .ok c' => CObj.run hs c'
 
 /-! ### how each object operation treats units -/
 
@@ -351,9 +393,8 @@ def orUnits : Option U → Option U → Option U
 
 /-- scalar.py:1527-1620 `Scalar.__pow__` as far as units are concerned.
     Powers 0, 1, 2, 3, 4, -1, 1/2, -1/2 take the shortcuts of `_EASY_INT_POWERS`/`_EASY_FLOAT_POWERS`;
-    every other power goes through the generic code, whose rank-0 path calls `units_power`
-    unconditionally while the array path first tests `is_unitless`. -/
-def powRule (p : Pw) (zeroD : Bool) (a : Option U) : Except Rej RuleOut :=
+    every other power goes through the generic code (both routes share `_units_to_power` since the repair). -/
+def powRule (p : Pw) (_zeroD : Bool) (a : Option U) : Except Rej RuleOut :=
   match p with
   | .half 0 => .ok (.obj none)                                     -- _power_0: `ones()` has no units
   | .half 2 => .ok (.obj a)                                        -- _power_1: self
@@ -369,9 +410,12 @@ def powRule (p : Pw) (zeroD : Bool) (a : Option U) : Except Rej RuleOut :=
     | .ok (some .inexact) => .ok .inexact
     | .ok (some (.exact r)) => ofSq (unitsPower (some r) (.half (-2)))
   | p =>
-    if zeroD then ofSq (unitsPower a p)
-    else if isUnitless a then .ok (.obj a)        -- `new_units = None`, then `example=self` restores self's units
-    else ofSq (unitsPower a p)
+    -- scalar.py `_units_to_power` (repaired: one rule for the rank-0 and the array route, `zeroD` no longer
+    -- matters): the units are raised exactly; only where that is impossible may a pure number keep its units
+    -- (`new_units = None`, then `example=self` restores self's units)
+    match unitsPower a p with
+    | .error e => if isUnitless a then .ok (.obj a) else .error e
+    | r => ofSq r
 
 /-- the units part of every unit-aware object operation: rejection, or what the result carries.
     Unary operations ignore `b`. -/
@@ -401,6 +445,130 @@ def unitsRule (op : OpSym) (a b : Option U) : Except Rej RuleOut :=
   | .arcsin | .arccos | .arctan | .int | .frac =>
     if isUnitless a then .ok (.obj none) else .error .valueError
   | .log => .ok (.obj none)
+
+/-! ### units of the derivatives of a result
+
+Every object carries its derivatives as objects with units of their own.  The operations build the
+derivative of a result from the operands' derivatives by the product / quotient / chain rule, using the
+same unit-combining helpers as for the values (qube.py `_mul_derivs`, `_div_derivs`, `_add_derivs`;
+math_ops.py dot/cross/outer/norm/norm_sq; scalar.py sqrt/reciprocal/`__pow__`; vector.py element_mul/div). -/
+
+/-- the derivative of an operand under one key: absent (`none`), or present with these units -/
+abbrev DU := Option (Option U)
+
+/-- what the result's derivative under that key carries -/
+inductive DOut where
+  | absent                    -- the result has no derivative under the key
+  | units (u : Option U)
+  | inexact
+  deriving DecidableEq, Repr, Inhabited
+
+/-- units of `x + y`, `x - y`, `x += y`, `x -= y` (qube.py:2895-2912, 2945-2964): must match, the left ones win -/
+def addU (a b : Option U) : Except Rej (Option U) :=
+  if canMatch a b then .ok (orUnits a b) else .error .valueError
+
+/-- `Units.units_power(u, -1)` on exact units -/
+def recipU : Option U → Option U
+  | none => none
+  | some a => some (pow a (-1))
+
+/-- second term added to / subtracted from a first one that may be absent -/
+def addTerm (t1 : Option (Option U)) (t2 : Option U) : Except Rej DOut :=
+  match t1 with
+  | none => .ok (.units t2)
+  | some t1 => match addU t1 t2 with
+    | .error e => .error e
+    | .ok u => .ok (.units u)
+
+/-- qube.py `_mul_derivs`; math_ops.py dot / cross / outer; vector.py element_mul:
+    d(xy) = dx·y.wod + x.wod·dy -/
+def derivMul (a b : Option U) (da db : DU) : Except Rej DOut :=
+  let t1 := da.map fun d => mulUnits d b
+  match db with
+  | none => .ok (match t1 with | none => .absent | some t => .units t)
+  | some d => addTerm t1 (mulUnits a d)
+
+/-- qube.py `_div_derivs`: d(x/y) = dx·(1/y) − x·(dy·(1/y)·(1/y)) -/
+def derivDiv (a b : Option U) (da db : DU) : Except Rej DOut :=
+  let inv := recipU b
+  let t1 := da.map fun d => mulUnits d inv
+  match db with
+  | none => .ok (match t1 with | none => .absent | some t => .units t)
+  | some d => addTerm t1 (mulUnits a (mulUnits (mulUnits d inv) inv))
+
+/-- vector.py:696-718 `element_div`: dx·(1/y) − dy·(x·y⁻²)  (repaired: the factor y⁻² has units y⁻²) -/
+def derivElemDiv (a b : Option U) (da db : DU) : Except Rej DOut :=
+  let t1 := da.map fun d => mulUnits d (recipU b)
+  match db with
+  | none => .ok (match t1 with | none => .absent | some t => .units t)
+  | some d =>
+    let inv2 : Option U := match b with | none => none | some b => some (pow b (-2))
+    addTerm t1 (mulUnits d (mulUnits a inv2))
+
+def outUnits : Except Rej RuleOut → Except Rej (Option (Option U))
+  | .error e => .error e
+  | .ok (.obj u) => .ok (some u)
+  | .ok _ => .ok none          -- inexact
+
+/-- `factor * deriv` where the factor's units come out of another rule -/
+def timesFactor (f : Except Rej RuleOut) (da : DU) : Except Rej DOut :=
+  match da with
+  | none => .ok .absent
+  | some d => match outUnits f with
+    | .error e => .error e
+    | .ok none => .ok .inexact
+    | .ok (some fu) => .ok (.units (mulUnits fu d))
+
+/-- scalar.py:555-591 `sqrt`: factor = 0.5 / result, derivative = factor * deriv -/
+def derivSqrt (a : Option U) (da : DU) : Except Rej DOut :=
+  match ofSq (sqrtUnits a) with
+  | .error e => .error e
+  | .ok (.obj r) => timesFactor (.ok (.obj (recipU r))) da
+  | .ok _ => .ok (match da with | none => .absent | some _ => .inexact)
+
+/-- scalar.py:1302-1345 `reciprocal`: factor = −result·result -/
+def derivRecip (a : Option U) (da : DU) : Except Rej DOut :=
+  timesFactor (.ok (.obj (mulUnits (recipU a) (recipU a)))) da
+
+/-- scalar.py:1455-1620 `__pow__` with derivatives, following the same routes as `powRule` -/
+def derivPow (p : Pw) (zeroD : Bool) (a : Option U) (da : DU) : Except Rej DOut :=
+  match powRule p zeroD a with
+  | .error e => .error e
+  | .ok _ =>
+    match p with
+    | .half 0 => .ok (match da with | none => .absent | some _ => .units none)   -- `deriv.zeros(...)`: no units
+    | .half 2 => .ok (match da with | none => .absent | some d => .units d)     -- self
+    | .half 4 => timesFactor (.ok (.obj a)) da                                  -- 2·x.wod
+    | .half 6 => timesFactor (ofSq (unitsPower a (.half 4))) da                -- 3·x², units_power(u, 2)
+    | .half 8 => timesFactor (ofSq (unitsPower a (.half 6))) da                -- 4·x³, units_power(u, 3)
+    | .half (-2) => derivRecip a da
+    | .half 1 => derivSqrt a da
+    | .half (-1) =>                                                             -- sqrt().reciprocal()
+      match ofSq (sqrtUnits a), derivSqrt a da with
+      | .error e, _ => .error e
+      | _, .error e => .error e
+      | .ok (.obj r), .ok (.units d1) => derivRecip r (some d1)
+      | .ok (.obj _), .ok .absent => .ok .absent
+      | _, _ => .ok (match da with | none => .absent | some _ => .inexact)
+    | .other => timesFactor (powRule .other zeroD a) da     -- expo − 1 is again neither integer nor half-integer
+    | .half k2 => timesFactor (powRule (.half (k2 - 2)) zeroD a) da               -- expo · x**(expo−1)
+
+inductive DOp where
+  | mulLike | div | elemDiv | sqrt | recip | norm | normSq
+  | pow (p : Pw) (zeroD : Bool)
+  deriving DecidableEq, Repr, Inhabited
+
+/-- units of the result's derivative for each operation that builds derivatives -/
+def derivRule (op : DOp) (a b : Option U) (da db : DU) : Except Rej DOut :=
+  match op with
+  | .mulLike => derivMul a b da db
+  | .div => derivDiv a b da db
+  | .elemDiv => derivElemDiv a b da db
+  | .sqrt => derivSqrt a da
+  | .recip => derivRecip a da
+  | .norm => timesFactor (.ok (.obj (divUnits a a))) da          -- factor = x.wod / norm, then dot(factor, dx)
+  | .normSq => timesFactor (.ok (.obj a)) da                     -- factor = 2·x.wod
+  | .pow p z => derivPow p z a da
 
 /-! ### units.py:452-520 the name algebra on dictionaries
 
